@@ -72,9 +72,43 @@ def cold_case(shape, items, en, unsub, sched, spurious=False, twice=False):
     return {"scn": scn, "kind": "cold", "shape": shape, "items": items, "en": en, "unsub": unsub, "sched": sched, "users": [0, 1] if twice else [0]}
 
 
+def hot_so_case(shape, items, sched, feedback=None, second=None):
+    """subscribe_on over a HOT source: the subscription is made on the scheduler's thread at time 0, the emitter starts at 1 ms (virtual
+    time: the subscription is in place by then); subscribe_on moves the SUBSCRIPTION only, so items arrive on the emitting thread(s):
+    a feedback item pushed from inside callback i arrives nested, a second emitting thread may overlap - nothing may be lost"""
+    pipe = wrap(shape, ["hot", 0])
+    threads = [["e", ["sleep", 1]] + [["next", 0, v] for v in items]]
+    if second:
+        threads.append(["e2", ["sleep", 1]] + [["next", 0, v] for v in second])
+    sub0 = ["sub", 0, 0] + ([["react", feedback[0], ["next", 0, feedback[1]]]] if feedback is not None else [])
+    scn = ["conc", ["objects", ["subject", "subject"], ["pipe", pipe]], ["init", sub0], ["threads"] + threads, ["fini"], ["sched"] + sched]
+    return {"scn": scn, "kind": "hot-so", "shape": shape, "items": items, "second": second or [], "en": "n", "unsub": False, "sched": sched, "users": [0], "fb": feedback}
+
+
+def judge_hot_so(case, ob):
+    bad = []
+    gots = [str(c[1][1]) for c in vplib.callbacks_of(ob, "cb") if int(c[0]) == 0 and c[1][0] == "n"]
+    want = [str(v) for v in case["items"] + case["second"]] + ([str(case["fb"][1])] if case["fb"] is not None else [])
+    if sorted(gots) != sorted(want):
+        bad.append("subscribe_on over a hot source: the subscriber received %s but %s were pushed after the subscription was in place" % (gots, want))
+    else:
+        for seq in (case["items"], case["second"]):
+            mine = [g for g in gots if g in [str(v) for v in seq]]
+            if mine != [str(v) for v in seq]:
+                bad.append("the items of one emitting thread arrived out of order: %s" % gots)
+    return bad, " ".join(gots), len(gots) >= 2
+
+
 def generate(rng, tier, seed):
     thorough = tier == "thorough"
     cases = []
+    for _ in range(12 if thorough else 4):
+        base = seed * 1000 + rng.randrange(1000)
+        shape = rng.choice(["so", "map-so", "so-map", "so-so"])
+        its = [1 + 10 * i for i in range(rng.randrange(2, 5))]
+        cases.append(hot_so_case(shape, its, ["random", base, 16 if thorough else 8], feedback=(rng.randrange(0, len(its) - 1), 99)))
+        cases.append(hot_so_case(shape, its, ["random", base, 30 if thorough else 12], second=[2 + 10 * i for i in range(rng.randrange(1, 4))]))
+        cases.append(hot_so_case(shape, its, ["pct", 3, base, 30 if thorough else 12], second=[2 + 10 * i for i in range(rng.randrange(1, 4))]))
     for unsub in (False, True):
         cases.append(hot_case("oo", [1], "c", unsub, ["dfs", 6000]))
         cases.append(hot_case("oo", [1, 2], "n", unsub, ["dfs", 6000]))
@@ -131,6 +165,8 @@ def sched_of(case, ob):
 
 
 def judge_one(case, ob):
+    if case["kind"] == "hot-so":
+        return judge_hot_so(case, ob)
     bad, logs, nt = [], [], False
     for u in case.get("users", [0]):
         b, l, n = judge_user(case, ob, u)
